@@ -25,6 +25,7 @@ type cenv struct {
 	old  *State
 	nq   *int
 	genericFn *ssa.Function // instance whose type arguments the clause's type parameters denote (call-site evaluation)
+	bound map[string]bool // names bound by an enclosing quantifier (they shadow program variables of the same name)
 }
 
 var untypedInt = types.Typ[types.UntypedInt]
@@ -37,6 +38,11 @@ func (ce *cenv) with(name string, v Val) *cenv {
 		n.vars[k] = x
 	}
 	n.vars[name] = v
+	n.bound = map[string]bool{}
+	for k := range ce.bound {
+		n.bound[k] = true
+	}
+	n.bound[name] = true
 	return &n
 }
 
@@ -131,6 +137,9 @@ func (ce *cenv) lookupIdent(id *ast.Ident) (Val, bool) {
 		return boolVal("true"), true
 	case "false":
 		return boolVal("false"), true
+	}
+	if ce.bound[name] {
+		return ce.vars[name], true
 	}
 	if ce.fr != nil && ce.blk != nil {
 		// inside a loop invariant a reassigned parameter denotes its current (loop-carried) value
